@@ -93,8 +93,8 @@ Qed.
 Definition fresh (s : st) (c : nat) (t e : bool) : inst := mk_inst (length (log s)) c t e.
 
 Inductive stepR (s : st) : event -> st -> obs -> Prop :=
-| R_close k s' : singles s' = singles s -> sessions s' = clear2 (sessions s) k -> log s' = log s ->
-    stepR s (Close k) s' Closed
+| R_close k how s' : singles s' = singles s -> sessions s' = clear2 (sessions s) k -> log s' = log s ->
+    stepR s (Close k how) s' Closed
 | R_hit k c a : (modes c = MSingle /\ singles s c = Some a) \/ (modes c = MSession /\ sessions s k c = Some a) ->
     stepR s (Call k c) s (Served a)
 | R_new k c t e s' : w (length (log s)) c = OMade t e ->
@@ -226,7 +226,7 @@ Proof.
   - repeat split; cbn; try contradiction; try discriminate.
     intros n c t e H. destruct n; discriminate.
   - intros s tr ev s' o Hr (B1 & B2 & B3 & B4) Hst.
-    destruct Hst as [k s' Hs1 Hs2 Hl | k c a Hhit | k c t e s' Hw Hl Hm | k c b s' Hw Hb Hl Hs1 Hs2 Hm].
+    destruct Hst as [k how s' Hs1 Hs2 Hl | k c a Hhit | k c t e s' Hw Hl Hm | k c b s' Hw Hb Hl Hs1 Hs2 Hm].
     + (* close *)
       split; [|split; [|split]].
       * intros k0 c a H. apply in_snoc in H. destruct H as [H|H]; [|discriminate]. rewrite Hl. eauto.
@@ -295,7 +295,7 @@ Proof.
   apply (reach_ind' (fun s tr => forall k c a, modes c = MSingle -> In (srv k c a) tr -> singles s c = Some a)).
   - intros k c a _ [].
   - intros s tr ev s' o Hr IH Hst k0 c0 a0 Hm0 Hin. apply in_snoc in Hin.
-    destruct Hst as [k s' Hs1 Hs2 Hl | k c a Hhit | k c t e s' Hw Hl Hm | k c b s' Hw Hb Hl Hs1 Hs2 Hm].
+    destruct Hst as [k how s' Hs1 Hs2 Hl | k c a Hhit | k c t e s' Hw Hl Hm | k c b s' Hw Hb Hl Hs1 Hs2 Hm].
     + destruct Hin as [Hin|Hin]; [|discriminate]. rewrite Hs1. eauto.
     + destruct Hin as [Hin|Hin]; [eauto|]. inversion Hin; subst.
       destruct Hhit as [[_ H]|[H _]]; [assumption|congruence].
@@ -311,7 +311,7 @@ Proof.
 Qed.
 
 (* ---------- session ---------- *)
-Definition no_close (k : nat) (t : trace) : Prop := forall o, ~ In (Close k, o) t.
+Definition no_close (k : nat) (t : trace) : Prop := forall how o, ~ In (Close k how, o) t.
 
 Lemma no_close_snoc k t x : no_close k (t ++ [x]) -> no_close k t.
 Proof. intros H o Hin. apply (H o). apply in_or_app. auto. Qed.
@@ -333,9 +333,9 @@ Proof.
       * rewrite Hm0 in Hm. destruct Hm as (Hn & Hs1 & Hs2). rewrite Hs2. apply set2_same.
     + (* it is an old entry *)
       pose proof (IH _ _ _ _ _ eq_refl Hm0 (no_close_snoc _ _ _ Hnc)) as Hold.
-      destruct Hst as [k s' Hs1 Hs2 Hl | k c a Hhit | k c t e s' Hw Hl Hm | k c b s' Hw Hb Hl Hs1 Hs2 Hm].
+      destruct Hst as [k how s' Hs1 Hs2 Hl | k c a Hhit | k c t e s' Hw Hl Hm | k c b s' Hw Hb Hl Hs1 Hs2 Hm].
       * rewrite Hs2. rewrite clear2_other; [assumption|].
-        intros ->. apply (Hnc Closed). apply in_or_app. right. left. reflexivity.
+        intros ->. apply (Hnc how Closed). apply in_or_app. right. left. reflexivity.
       * assumption.
       * destruct (modes c) eqn:Hmc.
         -- destruct Hm as (Hn & Hs1 & Hs2). rewrite Hs2. assumption.
@@ -360,12 +360,12 @@ Proof.
     pose proof (IH0 Hr) as IH. clear IH0.
     destruct (basic_inv _ _ Hr) as (B1 & B2 & B3 & B4).
     apply snoc_split in Hdec.
-    destruct Hst as [k s' Hs1 Hs2 Hl | k c a Hhit | k c t e s' Hw Hl Hm | k c b' s' Hw Hb Hl Hs1 Hs2 Hm].
+    destruct Hst as [k how s' Hs1 Hs2 Hl | k c a Hhit | k c t e s' Hw Hl Hm | k c b' s' Hw Hb Hl Hs1 Hs2 Hm].
     + (* close k *)
       rewrite Hs2 in Hslot. apply clear2_inv in Hslot. destruct Hslot as [Hne Hslot].
       destruct Hdec as [(-> & Hx & ->)|(t2' & -> & ->)]; [discriminate|].
       destruct (IH _ _ _ Hslot _ _ _ _ eq_refl Hid) as [-> Hnc]. split; [reflexivity|].
-      intros o' Hin. apply in_snoc in Hin. destruct Hin as [Hin|Hin]; [exact (Hnc _ Hin)|].
+      intros how' o' Hin. apply in_snoc in Hin. destruct Hin as [Hin|Hin]; [exact (Hnc _ _ Hin)|].
       inversion Hin. congruence.
     + (* hit *)
       destruct Hdec as [(-> & Hx & ->)|(t2' & -> & ->)].
@@ -373,9 +373,9 @@ Proof.
         destruct (B3 _ _ _ Hslot) as [Hms _].
         destruct Hhit as [[H _]|[_ H]]; [congruence|].
         destruct (B3 _ _ _ H) as [_ Hin]. apply in_split in Hin. destruct Hin as (u1 & u2 & Hu).
-        destruct (IH _ _ _ Hslot _ _ _ _ Hu Hid) as [-> _]. split; [reflexivity|]. intros o' [].
+        destruct (IH _ _ _ Hslot _ _ _ _ Hu Hid) as [-> _]. split; [reflexivity|]. intros how' o' [].
       * destruct (IH _ _ _ Hslot _ _ _ _ eq_refl Hid) as [-> Hnc]. split; [reflexivity|].
-        intros o' Hin. apply in_snoc in Hin. destruct Hin as [Hin|Hin]; [exact (Hnc _ Hin)|discriminate].
+        intros how' o' Hin. apply in_snoc in Hin. destruct Hin as [Hin|Hin]; [exact (Hnc _ _ Hin)|discriminate].
     + (* new *)
       assert (Hslot' : (k' = k /\ c0 = c /\ b = fresh s c t e /\ modes c = MSession) \/ sessions s k' c0 = Some b).
       { destruct (modes c) eqn:Hmc.
@@ -386,19 +386,19 @@ Proof.
       destruct Hdec as [(-> & Hx & ->)|(t2' & -> & ->)].
       * inversion Hx; subst. clear Hx.
         destruct Hslot' as [(-> & _ & _ & _)|Hold].
-        -- split; [reflexivity|]. intros o' [].
+        -- split; [reflexivity|]. intros how' o' [].
         -- destruct (B3 _ _ _ Hold) as [_ Hin]. destruct (B1 _ _ _ Hin) as (Hlt & _).
            cbn [fresh iid] in Hid. lia.
       * destruct Hslot' as [(-> & -> & -> & _)|Hold].
         -- assert (Hin : In (srv k0 c a0) (t1 ++ srv k0 c a0 :: t2')) by (apply in_or_app; right; left; reflexivity).
            destruct (B1 _ _ _ Hin) as (Hlt & _). cbn [fresh iid] in Hid. lia.
         -- destruct (IH _ _ _ Hold _ _ _ _ eq_refl Hid) as [-> Hnc]. split; [reflexivity|].
-           intros o' Hin. apply in_snoc in Hin. destruct Hin as [Hin|Hin]; [exact (Hnc _ Hin)|discriminate].
+           intros how' o' Hin. apply in_snoc in Hin. destruct Hin as [Hin|Hin]; [exact (Hnc _ _ Hin)|discriminate].
     + (* fail *)
       rewrite Hs2 in Hslot.
       destruct Hdec as [(-> & Hx & ->)|(t2' & -> & ->)]; [discriminate|].
       destruct (IH _ _ _ Hslot _ _ _ _ eq_refl Hid) as [-> Hnc]. split; [reflexivity|].
-      intros o' Hin. apply in_snoc in Hin. destruct Hin as [Hin|Hin]; [exact (Hnc _ Hin)|discriminate].
+      intros how' o' Hin. apply in_snoc in Hin. destruct Hin as [Hin|Hin]; [exact (Hnc _ _ Hin)|discriminate].
 Qed.
 
 (* ---------- the sequential theorems over reachable (state, trace) ---------- *)
@@ -485,7 +485,7 @@ Proof.
   - intros c. split; reflexivity.
   - intros s tr ev s' o Hr IH Hst c0. destruct (IH c0) as [IH1 IH2].
     unfold failed_invocations, failed_calls, invocations, calls_on in *.
-    destruct Hst as [k s' Hs1 Hs2 Hl | k c a Hhit | k c t e s' Hw Hl Hm | k c b s' Hw Hb Hl Hs1 Hs2 Hm].
+    destruct Hst as [k how s' Hs1 Hs2 Hl | k c a Hhit | k c t e s' Hw Hl Hm | k c b s' Hw Hb Hl Hs1 Hs2 Hm].
     + rewrite Hl, !filter_snoc_len. cbn. split; [lia|intros H; rewrite IH2 by assumption; lia].
     + rewrite !filter_snoc_len. cbn [is_failed_call is_call]. split; [lia|]. intros H.
       destruct (Nat.eqb_spec c c0) as [->|Hne]; [|rewrite IH2 by assumption; lia].
@@ -534,12 +534,12 @@ Qed.
 
 Theorem session_private h t1 t2 t3 k k' c a b :
   Tr h = t1 ++ (Call k c, Served a) :: t2 ++ (Call k' c, Served b) :: t3 -> modes c = MSession ->
-  (iid a = iid b <-> (k = k' /\ forall o, ~ In (Close k, o) t2)) /\ (iid a = iid b -> a = b).
+  (iid a = iid b <-> (k = k' /\ forall how o, ~ In (Close k how, o) t2)) /\ (iid a = iid b -> a = b).
 Proof.
   intros Hd Hm. exact (r_session_private sh Hok w modes _ _ (run_hist_reach sh w modes h) _ _ _ _ _ _ _ _ Hd Hm).
 Qed.
 
-Theorem session_dropped h k c : sessions (St (h ++ [Close k])) k c = None.
+Theorem session_dropped h k how c : sessions (St (h ++ [Close k how])) k c = None.
 Proof.
   destruct (ok_parts sh Hok) as (_ & _ & _ & H4).
   rewrite run_hist_snoc. cbn [fst step_ev]. rewrite H4. cbn [sessions]. apply clear2_same.
